@@ -95,7 +95,7 @@ class Runner:
                             c('net_push %d %s' % (fd, b.hex()))
                     info['sent'] = bytearray(buf[off:])
             if q.get('handle') == '1' and q.get('state') in ('3', '4', '5') and (q.get('tag') or '').startswith('t'):
-                out.append((q.get('state'), q.get('tag'), q.get('herr'), q.get('sigdoc')))
+                out.append((q.get('state'), q.get('tag'), q.get('herr'), q.get('sigdoc'), q.get('sigrc')))
         return out
 
     def teardown(self):
@@ -210,12 +210,16 @@ def is_error(res):
     """did the faulted operation report an error somewhere? (an inconclusive verdict is how a verification reports that it could not finish)"""
     for x in res:
         if isinstance(x, tuple):
+            if any(isinstance(y, str) and y.startswith('ERR') for y in x):
+                return True         # the harness could not read the result back (serialization / getter reported an error)
             if x[0] in ('V', 'R'):
                 if x[1] not in ('0', 0, None):
                     return True
                 if x[0] == 'V' and x[2] == '1':
                     return True
             elif x[0] == '5':        # async handle returned in error state
+                return True
+            elif x[0] == '3' and len(x) > 4 and x[4] not in ('0', None):      # response received but no signature could be built from it
                 return True
         elif x not in ('0', 0, None):
             return True
